@@ -43,6 +43,12 @@ let () =
   register "tstack_imp" (function [old; s; out] -> (opt tok_tcards (import_tstack (tcards_of_tok old) (bytes_of_tok s)), out) | _ -> failwith "arity");
   register "tss_exp" (function [ps; out] -> (tok_of_bytes (export_tstacksecret (tpairs_of_tok ps)), out) | _ -> failwith "arity");
   register "tss_imp" (function [old; s; out] -> (opt tok_tpairs (import_tstacksecret (tpairs_of_tok old) (bytes_of_tok s)), out) | _ -> failwith "arity");
+  register "pub_exp" (function [n; e; t; m; y; z; g; out] ->
+      (tok_of_bytes (export_pubkey { pk_name = bytes_of_tok n; pk_email = bytes_of_tok e; pk_type = bytes_of_tok t; pk_m = z_of_hex m; pk_y = z_of_hex y;
+                                     pk_nizk = bytes_of_tok z; pk_sig = bytes_of_tok g }), out) | _ -> failwith "arity");
+  register "pub_imp" (function [s; out] ->
+      (opt (fun k -> String.concat "," [tok_of_bytes k.pk_name; tok_of_bytes k.pk_email; tok_of_bytes k.pk_type; hex_of_z k.pk_m; hex_of_z k.pk_y;
+                                        tok_of_bytes k.pk_nizk; tok_of_bytes k.pk_sig]) (import_pubkey (bytes_of_tok s)), out) | _ -> failwith "arity");
   register "vstack_exp" (function [cs; out] -> (tok_of_bytes (export_vstack (cards_of_tok cs)), out) | _ -> failwith "arity");
   register "vstack_imp" (function [old; s; out] -> (opt tok_cards (import_vstack (cards_of_tok old) (bytes_of_tok s)), out) | _ -> failwith "arity");
   register "vss_exp" (function [ps; out] -> (tok_of_bytes (export_vstacksecret (pairs_of_tok ps)), out) | _ -> failwith "arity");
